@@ -722,7 +722,7 @@ func (s *r2State) interruptPath(d *core.FuncDecl, ctxP *types.Var, chans []*type
 			}
 		case core.KReturn:
 			// results assigned to named results / temporaries before the return read as if returned directly
-			if rs := returnExprs(p, i); len(rs) > 0 {
+			if rs := returnExprsC(c, p, i); len(rs) > 0 {
 				ev2 := *ev
 				ev2.Results = rs
 				ev = &ev2
